@@ -780,7 +780,7 @@ class Operation:
 
             axis_tens = self.inputs[2]
             assert len(axis_tens.ops) == 1 and axis_tens.ops[0].type == Op.Const
-            axis = int(axis_tens.values)
+            axis = int(axis_tens.values.item())
 
             for idx, size in enumerate(sizes):
                 # One but only one size might be set to -1, indicating that size should be inferred
